@@ -143,8 +143,11 @@ func (ls *Leadership) leaderCmp() clientv3.Cmp {
 }
 
 // DeleteLeaderKey deletes the corresponding leader from etcd by the leaderPath as the key.
-func (ls *Leadership) DeleteLeaderKey() error {
-	resp, err := kv.NewSlowLogTxn(ls.client).Then(clientv3.OpDelete(ls.leaderKey)).Commit()
+// The given comparisons, if any, guard the deletion: a caller that decided to delete after
+// reading the record passes the revision it read, so that a record written by another
+// member in the meantime is left alone.
+func (ls *Leadership) DeleteLeaderKey(cmps ...clientv3.Cmp) error {
+	resp, err := kv.NewSlowLogTxn(ls.client).If(cmps...).Then(clientv3.OpDelete(ls.leaderKey)).Commit()
 	if err != nil {
 		return errs.ErrEtcdKVDelete.Wrap(err).GenWithStackByCause()
 	}
